@@ -15,7 +15,7 @@ from . import _c13_doe as doe
 
 PROP = "C13"
 NAME = "c13_procs"
-RUNS = {"quick": 700, "thorough": 40000}
+RUNS = {"quick": 700, "thorough": 20000}
 TIMEOUT = 240
 CHUNK = 16
 RULE = (
